@@ -121,9 +121,13 @@ Roots ==
         ks \in {<<cs, l>> : cs \in Cascades, l \in LeafPool} \cup {<<l, cs>> : cs \in Cascades, l \in LeafPool}}
 \* trees only the API can build: any number of daughters (names only)
 ApiNode(n, ks) == [name |-> n, pname |-> n, twoJ |-> 0, sf |-> "-", ls |-> NoLs, amp |-> "one", kids |-> ks]
-ApiLevel1 == LeafPool \cup {ApiNode("R1", ks) : ks \in UNION {[1..n -> LeafPool] : n \in 2..3}}
-ApiLevel2 == ApiLevel1 \cup {ApiNode("R2", ks) : ks \in UNION {[1..n -> {Leaf("a")} \cup {q \in ApiLevel1 : q.kids # <<>> /\ q.kids[1].name = "a"}] : n \in 2..3}}
-ApiRoots == {ApiNode("M", ks) : ks \in UNION {[1..n -> {Leaf("c")} \cup (ApiLevel2 \ LeafPool)] : n \in 2..3}}
+V2 == ApiNode("R1", <<Leaf("a"), Leaf("b")>>)
+V3 == ApiNode("R1", <<Leaf("a"), Leaf("a"), Leaf("b")>>)
+ApiLevel1 == {ApiNode("R1", ks) : ks \in UNION {[1..n -> {Leaf("a"), Leaf("b")}] : n \in 2..3}}
+ApiLevel2 == {ApiNode("R2", ks) : ks \in UNION {[1..n -> {Leaf("a"), V2, V3}] : n \in 2..3}}
+ApiRoots == {ApiNode("M", ks) : ks \in [1..2 -> {Leaf("c"), V2} \cup ApiLevel2]}
+            \cup {ApiNode("M", ks) : ks \in [1..3 -> {Leaf("c"), V2, ApiNode("R2", <<Leaf("a"), V2>>), ApiNode("R2", <<Leaf("a"), Leaf("a"), V2>>)}]}
+            \cup {ApiNode("M", <<k, Leaf("c")>>) : k \in ApiLevel1}
 Spins == {t \in (0..MaxTwoJ) \X (0..MaxTwoJ) \X (0..MaxTwoJ) : Physical(t[1], t[2], t[3])}
 
 Cases == IF Mode = "trace" THEN JsonDeserialize(IOEnv.TRACE_FILE) ELSE <<>>
